@@ -113,4 +113,8 @@ KeyLE(a, b) == LexLE(a, b, 1)
 SortedStable(keys, oi) == /\ \A k \in 1..(Len(keys) - 1) : KeyLE(keys[k], keys[k + 1])
                           /\ \A k \in 1..(Len(keys) - 1) : keys[k] = keys[k + 1] => oi[k] < oi[k + 1]
                           /\ {oi[k] : k \in 1..Len(oi)} = 1..Len(oi)
+\* descending order (reverse=True): keys never increase; issues with equal keys STILL keep their original relative order
+SortedStableDesc(keys, oi) == /\ \A k \in 1..(Len(keys) - 1) : KeyLE(keys[k + 1], keys[k])
+                              /\ \A k \in 1..(Len(keys) - 1) : keys[k] = keys[k + 1] => oi[k] < oi[k + 1]
+                              /\ {oi[k] : k \in 1..Len(oi)} = 1..Len(oi)
 =============================================================================
